@@ -432,3 +432,72 @@ def c08(tier):
                      "the independent position model of the harness is checked against the specification's table on every grid position"]
     c.exhaustive = True
     c.finish()
+
+
+# ---------------------------------------------------------------------------
+# C04  the syntax tree is the derivation the grammar mandates
+
+def _grammar_cfgs(tier):
+    return (["MC_SplGrammar_n15", "MC_SplGrammar_expr", "MC_SplGrammar_expr2", "MC_SplGrammar_stmt"] if tier == "quick"
+            else ["MC_SplGrammar_n18", "MC_SplGrammar_expr", "MC_SplGrammar_expr2", "MC_SplGrammar_stmt"])
+
+
+def c04(tier):
+    c = Check("C04", tier)
+    c.rule = ("SplGrammar is the SPL grammar as a leftmost-derivation machine whose output interleaves terminals with open/close "
+              "brackets = the mandated tree. TLC enumerates ALL derivations up to the token bound (whole programs; the expression "
+              "sub-grammar with every operator and literal spelling; the statement sub-grammar incl. dangling else) and simulates "
+              "400-token programs; each is rendered under every layout (canonical, minimal separators, newline/CRLF/tab everywhere, "
+              "a comment in every gap, a comment in single gaps in turn) and parsed by the real parser; the AST, projected to the bracket "
+              "vocabulary with absolute token ranges, must equal the mandated tree with the node-extent rule, without diagnostics, and "
+              "be the same under all layouts. Non-trivial: >= 7 terminals.")
+    vlib.build_harness()
+    for cfg in _grammar_cfgs(tier):
+        res = vlib.tlc("MC_SplGrammar", cfg + ".cfg", "c04_" + cfg, timeout=6000, heap="16g")
+        vlib.require_coverage(res, ["Expand", "Shift"])
+        c.add_tlc(res, cfg)
+        r = _tag_mode(_fe("grammar", res["out"], "c04_" + cfg, ["gaps=%d" % (3 if tier == "quick" else 8)]), "grammar")
+        c.add_harness(r, cfg)
+        os.remove(res["out"])
+    procs, num = (8, 6) if tier == "quick" else (16, 60)
+    res = vlib.tlc_sim_multi("MC_SplGrammar", "Sim_SplGrammar.cfg", "c04_sim", procs, num, 5000, timeout=3000)
+    c.add_tlc(res, "Sim_SplGrammar (400-token programs)")
+    r = _tag_mode(_fe("grammar", res["out"], "c04_sim", ["gaps=%d" % (20 if tier == "quick" else 100)]), "grammar")
+    c.add_harness(r, "simulated large programs")
+    os.remove(res["out"])
+    c.assumptions = ["comments in front of a declaration are its doc comments: the name node of a parameter without `ref` may start "
+                     "with or without them", "grammar written from the SPL language report's EBNF as quoted in the property"]
+    c.exhaustive = True
+    c.finish()
+
+
+# ---------------------------------------------------------------------------
+# C05  a syntax error stays contained in its declaration
+
+def c05(tier):
+    c = Check("C05", tier)
+    c.rule = ("For every program of the derivation machine with >= 2 global declarations (all up to the token bound, plus simulated "
+              "400-token programs), every token of every declaration except the proc/type keywords is deleted, replaced by and "
+              "preceded by every token of the 34-spelling SPL token alphabet (Damage action); the real parser must return the "
+              "sub-trees of all undamaged declarations unchanged (ranges shifted behind the damage), put every syntax diagnostic "
+              "inside the damaged declaration's region, and keep the table entries of the undamaged declarations.")
+    vlib.build_harness()
+    cfg = "MC_SplGrammar_n15" if tier == "quick" else "MC_SplGrammar_n18"
+    res = vlib.tlc("MC_SplGrammar", cfg + ".cfg", "c05_" + cfg, timeout=6000, heap="16g")
+    vlib.require_coverage(res, ["Expand", "Shift"])
+    c.add_tlc(res, cfg)
+    r = _tag_mode(_fe("damage", res["out"], "c05_" + cfg), "damage")
+    if r["counters"].get("damages_with_syntax_diagnostics", 0) == 0:
+        raise ToolError("vacuity: no damage produced a syntax diagnostic")
+    c.add_harness(r, cfg + " (all damages)", traces=r["nontrivial"])
+    os.remove(res["out"])
+    procs, num = (8, 3) if tier == "quick" else (16, 30)
+    res = vlib.tlc_sim_multi("MC_SplGrammar", "Sim_SplGrammar.cfg", "c05_sim", procs, num, 5000, timeout=3000)
+    c.add_tlc(res, "Sim_SplGrammar (400-token programs)")
+    r = _tag_mode(_fe("damage", res["out"], "c05_sim", ["dstride=%d" % (7 if tier == "quick" else 1)]), "damage")
+    c.add_harness(r, "simulated large programs", traces=r["nontrivial"])
+    os.remove(res["out"])
+    c.assumptions = ["programs rendered with one blank between tokens (the damage is a token-level one)",
+                     "table entries are compared only when declaration names are unique and the damage does not introduce a declared name"]
+    c.exhaustive = True
+    c.finish()
